@@ -208,6 +208,8 @@ class PreemptibleResource(Entity):
             self._try_preempt(amount, priority)
             if self._available >= amount:
                 self._grant_immediate(future, amount, priority, on_preempt)
+                # The eviction may have freed more than this request takes.
+                self._wake_waiters()
                 return future
 
         # Must wait
@@ -229,6 +231,10 @@ class PreemptibleResource(Entity):
             priority,
             len(self._waiters),
         )
+
+        # A preemption that did not free enough for this request may still have
+        # freed enough for a queued waiter ahead of it: serve waiters in order now.
+        self._wake_waiters()
 
         return future
 
